@@ -60,6 +60,99 @@ func checkC10(c *Ctx) {
 	}
 	c10Bounds(c)
 	c10R3(c)
+	c10R5(c)
+}
+
+// c10R5: an unauthenticated datagram leaves no trace in an established session.
+func c10R5(c *Ctx) {
+	P := c.P
+	c.Rule("C10.R5", "an established session changes only on authentic packets: inside readPacketLocked every store to a SessionState field and every call that mutates the replay window lies after a nil AEAD Open on the path; in both handleSessionMessage functions every store to a SessionState field lies after readPacketLocked returned nil (a forged datagram with a live session id must not move the window, the counters or the address: it would wedge the session) (E1 order)")
+	rd := P.Func("transport", "(*SessionState).readPacketLocked")
+	if rd == nil {
+		c.Undecided("C10.R5", "transport.(*SessionState).readPacketLocked", "function not found")
+		return
+	}
+	ssT := P.Field("transport", "SessionState", "window")
+	markID := hopID("transport", "SlidingWindow", "Mark")
+	isSSField := func(v ssa.Value) bool {
+		fa, ok := v.(*ssa.FieldAddr)
+		if !ok {
+			return false
+		}
+		_, sels := accessPath(fa)
+		for _, sl := range sels {
+			if sl.Field != nil && sl.Field.Pkg() != nil && ssT != nil && sl.Field.Pkg() == ssT.Pkg() {
+				if named := fieldOwner(P, sl.Field); named == "SessionState" {
+					return true
+				}
+			}
+		}
+		return false
+	}
+	type target struct {
+		fn     *ssa.Function
+		authID string
+	}
+	targets := []target{{rd, aeadOpenID}}
+	for _, n := range []string{"(*Server).handleSessionMessage", "(*Client).handleSessionMessage"} {
+		if f := P.Func("transport", n); f != nil {
+			targets = append(targets, target{f, hopID("transport", "SessionState", "readPacketLocked")})
+		} else {
+			c.Undecided("C10.R5", "transport."+n, "function not found")
+		}
+	}
+	for _, t := range targets {
+		fs := newFailSet()
+		nEv := 0
+		ok := walkAllOpts(c, "C10.R5", t.fn, PathOpts{MaxVisits: 2}, func(p *Path) {
+			last := len(p.Blocks) - 1
+			var auth *ssa.Call
+			p.ForEach(func(i int, ins ssa.Instruction) bool {
+				switch x := ins.(type) {
+				case *ssa.Call:
+					id := calleeID(x)
+					if id == t.authID {
+						auth = x
+						return true
+					}
+					if id != markID {
+						return true
+					}
+				case *ssa.Store:
+					if !isSSField(x.Addr) {
+						return true
+					}
+				default:
+					return true
+				}
+				nEv++
+				if auth == nil {
+					fs.add("state-after-auth", "session state is modified before the datagram was authenticated: a forged datagram carrying a live session id changes the session (and can make it reject every later honest packet)", ins, p)
+				} else if ev := errResultOf(auth); ev == nil || p.Nilness(ev, last) != isNil {
+					fs.add("state-after-auth", "session state is modified on a path where authentication of the datagram was not found to succeed", ins, p)
+				}
+				return true
+			})
+		})
+		if ok {
+			fs.report(c, "C10.R5", FuncName(t.fn), []string{"state-after-auth"}, P.Pos(t.fn.Pos()), "every session-state change follows successful authentication on its path")
+		}
+		if t.fn == rd {
+			c.Floor("C10.R5", "state-changing events in readPacketLocked", nEv, 1)
+		}
+	}
+}
+
+// fieldOwner returns the name of the struct type (in package transport) that declares f.
+func fieldOwner(P *Program, f *types.Var) string {
+	for _, tn := range []string{"SessionState", "Server", "Client", "HandshakeState"} {
+		for _, fld := range []string{f.Name()} {
+			if g := P.Field("transport", tn, fld); g == f {
+				return tn
+			}
+		}
+	}
+	return ""
 }
 
 func checkC11(c *Ctx) {
